@@ -1,5 +1,6 @@
 import QipVerif.Lemmas.SchedCtrl
 import QipVerif.Lemmas.DecompDenEC
+import QipVerif.Lemmas.RouteC
 /-!
 # The families on which the scheduler's commutation rule is sound, over ℂ (C05, hypothesis `H2`)
 
@@ -12,11 +13,12 @@ ordered qubit lists and its angle) saying that the pair belongs to one of the pr
    same control (any targets) or the same target (any controls) — any two angles;
 3. `CNOT` with `X` or `RX(θ)` on the CNOT's target;
 4. `CNOT` with `Z` or `RZ(θ)` on the CNOT's control;
-5. the same symmetric two-qubit name (`SWAP ISWAP SQRTSWAP SQRTISWAP BERKELEY`) on the same ordered pair
-   of targets.
+5. the same symmetric two-qubit name (`SWAP ISWAP SQRTSWAP SQRTISWAP BERKELEY`) on the same pair of targets,
+   listed in the same or in the opposite order;
+6. two `TOFFOLI` gates (two controls, one target) with the same target, or with the same two controls in either order.
 
 `safePair_commute`: for such a pair the operators `semD N ρ a`, `semD N ρ b` on any register commute.
-Not covered (so `safePair = false`): `TOFFOLI`, `FREDKIN`, and every name without complex semantics in
+Not covered (so `safePair = false`): `FREDKIN`, and every name without complex semantics in
 `compactC` (`SWAPalpha R QASMU MS RZX`, user gates) — among them the families for which the rule is unsound.
 -/
 namespace QipVerif
@@ -248,6 +250,80 @@ theorem semD_congr (a b : Gate) (hq : a.qubits = b.qubits)
     obtain ⟨m, U⟩ := mU
     simp only [hq]
 
+/-! ## symmetric two-qubit gates and TOFFOLI -/
+
+theorem compactC_symD (n : GName) (h : symQ n = true) (θ : ℝ) :
+    ∃ D, compactC n θ = some ⟨2, toMatD 2 D⟩ ∧ SWAP2 * toMatD 2 D * SWAP2 = toMatD 2 D := by
+  cases n
+  case SWAP => exact ⟨GateE.swap, rfl, exch_swap⟩
+  case ISWAP => exact ⟨GateE.iswap, rfl, exch_iswap⟩
+  case SQRTSWAP => exact ⟨GateE.sqrtswap, rfl, exch_sqrtswap⟩
+  case SQRTISWAP => exact ⟨GateE.sqrtiswap, rfl, exch_sqrtiswap⟩
+  case BERKELEY => exact ⟨GateE.berkeley, rfl, exch_berkeley⟩
+  all_goals (simp [symQ] at h)
+
+/-- … `[a, b]` with any two-qubit compact matrix -/
+theorem semD_two' (g : Gate) {a b : ℕ} (hq : g.qubits = [a, b]) (U : Matrix (St 2) (St 2) ℂ)
+    (hc : compactC g.name (g.arg.eval ρ) = some ⟨2, U⟩) (A : Matrix (St N) (St N) ℂ) (hA : semD N ρ g = some A) :
+    ∃ (ha : a < N) (hb : b < N) (hne : (⟨a, ha⟩ : Fin N) ≠ ⟨b, hb⟩), A = (Tg.pair ⟨a, ha⟩ ⟨b, hb⟩ hne).embed U := by
+  obtain ⟨m, U', hm, hn, hr, hcc, rfl⟩ := semD_inv N ρ g A hA
+  rw [hc] at hcc
+  cases hcc
+  have ha : a < N := hr a (by rw [hq]; simp)
+  have hb : b < N := hr b (by rw [hq]; simp)
+  have hab : a ≠ b := by
+    rw [hq] at hn
+    simpa using hn
+  exact ⟨ha, hb, fun e => hab (congrArg Fin.val e), by rw [tgL_pair2 g.qubits hq hm hn hr hab ha hb]⟩
+
+theorem enc_three_fn (x : St 3) : enc x = 4 * (x 0).val + 2 * (x 1).val + (x 2).val := by
+  simp [enc, bitsL, Embed.undigits, Embed.prodL, List.ofFn_succ]
+  ring
+
+theorem toffoli_entries : ∀ a b c d e f : Fin 2,
+    GateE.toffoli.m.get (4 * a.val + 2 * b.val + c.val) (4 * d.val + 2 * e.val + f.val) =
+      if a = 1 ∧ b = 1 then (if d = 1 ∧ e = 1 ∧ f ≠ c then Cyc.one else Cyc.zero)
+      else (if a = d ∧ b = e ∧ c = f then Cyc.one else Cyc.zero) := by decide
+
+theorem isToffoli : IsToffoli (toMatD 3 GateE.toffoli) := by
+  intro u v
+  have he : GateE.toffoli.e = 0 := rfl
+  simp only [toMatD, toMat, Matrix.smul_apply, smul_eq_mul, enc_three_fn, toffoli_entries, he, pow_zero, div_one, one_mul]
+  split
+  · split <;> simp
+  · split <;> simp
+
+theorem tgL_triple {a b c : ℕ} (qs : List ℕ) (hq : qs = [a, b, c]) (hm : qs.length = 3) (hn : qs.Nodup)
+    (hr : ∀ q ∈ qs, q < N) (hab : a ≠ b) (hac : a ≠ c) (hbc : b ≠ c) (ha : a < N) (hb : b < N) (hc : c < N) :
+    tgL N qs 3 hm hn hr = Tg.triple ⟨a, ha⟩ ⟨b, hb⟩ ⟨c, hc⟩ (fun e => hab (congrArg Fin.val e))
+      (fun e => hac (congrArg Fin.val e)) (fun e => hbc (congrArg Fin.val e)) := by
+  subst hq
+  apply Tg.ext'
+  intro i
+  fin_cases i <;> rfl
+
+/-- … `[c₁, c₂, t]` with the name TOFFOLI -/
+theorem semD_toffoli (g : Gate) {a b c : ℕ} (hq : g.qubits = [a, b, c]) (hname : g.name = .TOFFOLI)
+    (A : Matrix (St N) (St N) ℂ) (hA : semD N ρ g = some A) :
+    ∃ (ha : a < N) (hb : b < N) (hc : c < N) (hab : (⟨a, ha⟩ : Fin N) ≠ ⟨b, hb⟩) (hac : (⟨a, ha⟩ : Fin N) ≠ ⟨c, hc⟩)
+      (hbc : (⟨b, hb⟩ : Fin N) ≠ ⟨c, hc⟩),
+      A = (Tg.triple ⟨a, ha⟩ ⟨b, hb⟩ ⟨c, hc⟩ hab hac hbc).embed (toMatD 3 GateE.toffoli) := by
+  obtain ⟨m, U, hm, hn, hr, hcc, rfl⟩ := semD_inv N ρ g A hA
+  rw [hname] at hcc
+  have hcomp : compactC .TOFFOLI (g.arg.eval ρ) = some ⟨3, toMatD 3 GateE.toffoli⟩ := rfl
+  rw [hcomp] at hcc
+  cases hcc
+  have ha : a < N := hr a (by rw [hq]; simp)
+  have hb : b < N := hr b (by rw [hq]; simp)
+  have hc : c < N := hr c (by rw [hq]; simp)
+  have hnd : a ≠ b ∧ a ≠ c ∧ b ≠ c := by
+    rw [hq] at hn
+    simp only [List.nodup_cons, List.mem_cons, List.not_mem_nil, or_false, not_or, List.nodup_nil, and_true,
+      not_false_eq_true] at hn
+    exact ⟨hn.1.1, hn.1.2, hn.2⟩
+  exact ⟨ha, hb, hc, fun e => hnd.1 (congrArg Fin.val e), fun e => hnd.2.1 (congrArg Fin.val e),
+    fun e => hnd.2.2 (congrArg Fin.val e), by rw [tgL_triple g.qubits hq hm hn hr hnd.1 hnd.2.1 hnd.2.2 ha hb hc]⟩
+
 /-! ## the decidable family predicate -/
 
 def fam1 (a b : Gate) : Bool :=
@@ -271,9 +347,20 @@ def cnotZ (a b : Gate) : Bool :=
 def fam5 (a b : Gate) : Bool :=
   a.name == b.name && symQ a.name && a.controls.isEmpty && b.controls.isEmpty && a.targets == b.targets
 
+/-- the same symmetric two-qubit gate with its two targets listed in the opposite order -/
+def fam5r (a b : Gate) : Bool :=
+  a.name == b.name && symQ a.name && a.controls.isEmpty && b.controls.isEmpty && a.targets.length == 2 &&
+    a.targets == b.targets.reverse
+
+/-- two TOFFOLI gates with the same target, or the same two controls (in either order) -/
+def famT (a b : Gate) : Bool :=
+  a.name == .TOFFOLI && b.name == .TOFFOLI && a.controls.length == 2 && a.targets.length == 1 &&
+    b.controls.length == 2 && b.targets.length == 1 &&
+    (a.targets == b.targets || a.controls == b.controls || a.controls == b.controls.reverse)
+
 /-- the pair belongs to a family for which commutation is proved -/
 def safePair (a b : Gate) : Bool :=
-  fam1 a b || fam2 a b || cnotX a b || cnotX b a || cnotZ a b || cnotZ b a || fam5 a b
+  fam1 a b || fam2 a b || cnotX a b || cnotX b a || cnotZ a b || cnotZ b a || fam5 a b || fam5r a b || famT a b
 
 theorem len1 {l : List ℕ} (h : l.length = 1) : ∃ t, l = [t] := List.length_eq_one_iff.mp h
 
@@ -362,11 +449,65 @@ theorem fam5_commute (a b : Gate) (A B : Matrix (St N) (St N) ℂ) (ha : semD N 
   cases this
   exact Commute.refl _
 
+theorem len2 {l : List ℕ} (h : l.length = 2) : ∃ x y, l = [x, y] := List.length_eq_two.mp h
+
+theorem fam5r_commute (a b : Gate) (A B : Matrix (St N) (St N) ℂ) (ha : semD N ρ a = some A)
+    (hb : semD N ρ b = some B) (h : fam5r a b = true) : Commute A B := by
+  simp only [fam5r, Bool.and_eq_true, beq_iff_eq, List.isEmpty_iff] at h
+  obtain ⟨⟨⟨⟨⟨hn, ho⟩, hac⟩, hbc⟩, hl⟩, ht⟩ := h
+  obtain ⟨i, j, hij⟩ := len2 hl
+  have hbt : b.targets = [j, i] := by
+    have := congrArg List.reverse ht
+    rw [List.reverse_reverse, hij] at this
+    simpa using this.symm
+  have hqa : a.qubits = [i, j] := by simp [Gate.qubits, hac, hij]
+  have hqb : b.qubits = [j, i] := by simp [Gate.qubits, hbc, hbt]
+  obtain ⟨D, hD, hex⟩ := compactC_symD a.name ho (a.arg.eval ρ)
+  have hDb : compactC b.name (b.arg.eval ρ) = some ⟨2, toMatD 2 D⟩ := by
+    rw [← hn, compactC_sym a.name ho _ (a.arg.eval ρ)]; exact hD
+  obtain ⟨hi, hj, hne, rfl⟩ := semD_two' ρ a hqa _ hD A ha
+  obtain ⟨hj', hi', hne', rfl⟩ := semD_two' ρ b hqb _ hDb B hb
+  rw [embed_exchange_symm _ hex ⟨j, hj'⟩ ⟨i, hi'⟩ hne']
+
+theorem famT_commute (a b : Gate) (A B : Matrix (St N) (St N) ℂ) (ha : semD N ρ a = some A)
+    (hb : semD N ρ b = some B) (h : famT a b = true) : Commute A B := by
+  simp only [famT, Bool.and_eq_true, Bool.or_eq_true, beq_iff_eq] at h
+  obtain ⟨⟨⟨⟨⟨⟨hna, hnb⟩, hac⟩, hat⟩, hbc⟩, hbt⟩, hor⟩ := h
+  obtain ⟨x1, x2, hx⟩ := len2 hac
+  obtain ⟨t, ht⟩ := len1 hat
+  obtain ⟨y1, y2, hy⟩ := len2 hbc
+  obtain ⟨u, hu⟩ := len1 hbt
+  have hqa : a.qubits = [x1, x2, t] := by simp [Gate.qubits, hx, ht]
+  have hqb : b.qubits = [y1, y2, u] := by simp [Gate.qubits, hy, hu]
+  obtain ⟨hx1, hx2, htN, n12, n1t, n2t, rfl⟩ := semD_toffoli ρ a hqa hna A ha
+  obtain ⟨hy1, hy2, huN, m12, m1u, m2u, rfl⟩ := semD_toffoli ρ b hqb hnb B hb
+  have e12 : x1 ≠ x2 := fun e => n12 (Fin.ext e)
+  have e1t : x1 ≠ t := fun e => n1t (Fin.ext e)
+  have e2t : x2 ≠ t := fun e => n2t (Fin.ext e)
+  have f12 : y1 ≠ y2 := fun e => m12 (Fin.ext e)
+  have f1u : y1 ≠ u := fun e => m1u (Fin.ext e)
+  have f2u : y2 ≠ u := fun e => m2u (Fin.ext e)
+  rw [hx, hy, ht, hu] at hor
+  simp only [List.cons.injEq, and_true, List.reverse_cons, List.reverse_nil, List.nil_append, List.cons_append] at hor
+  have key : t ≠ y1 ∧ t ≠ y2 ∧ u ≠ x1 ∧ u ≠ x2 := by
+    rcases hor with (h1 | ⟨h1, h2⟩) | ⟨h1, h2⟩
+    · subst h1
+      exact ⟨Ne.symm f1u, Ne.symm f2u, Ne.symm e1t, Ne.symm e2t⟩
+    · subst h1; subst h2
+      exact ⟨Ne.symm e1t, Ne.symm e2t, Ne.symm f1u, Ne.symm f2u⟩
+    · subst h1; subst h2
+      exact ⟨Ne.symm e2t, Ne.symm e1t, Ne.symm f2u, Ne.symm f1u⟩
+  apply toffoli_commute _ isToffoli
+  · exact fun e => key.1 (congrArg Fin.val e)
+  · exact fun e => key.2.1 (congrArg Fin.val e)
+  · exact fun e => key.2.2.1 (congrArg Fin.val e)
+  · exact fun e => key.2.2.2 (congrArg Fin.val e)
+
 /-- **`H2` for the proved families**: the operators of a safe pair commute on every register. -/
 theorem safePair_commute (a b : Gate) (A B : Matrix (St N) (St N) ℂ) (ha : semD N ρ a = some A)
     (hb : semD N ρ b = some B) (h : safePair a b = true) : Commute A B := by
   simp only [safePair, Bool.or_eq_true] at h
-  rcases h with (((((h | h) | h) | h) | h) | h) | h
+  rcases h with (((((((h | h) | h) | h) | h) | h) | h) | h) | h
   · exact fam1_commute ρ a b A B ha hb h
   · exact fam2_commute ρ a b A B ha hb h
   · exact cnotX_commute ρ a b A B ha hb h
@@ -374,5 +515,7 @@ theorem safePair_commute (a b : Gate) (A B : Matrix (St N) (St N) ℂ) (ha : sem
   · exact cnotZ_commute ρ a b A B ha hb h
   · exact (cnotZ_commute ρ b a B A hb ha h).symm
   · exact fam5_commute ρ a b A B ha hb h
+  · exact fam5r_commute ρ a b A B ha hb h
+  · exact famT_commute ρ a b A B ha hb h
 
 end QipVerif
